@@ -31,7 +31,23 @@ def run(ctx):
     groups = {}
     for i, c in enumerate(cases):
         groups.setdefault(json.dumps(c["vals"]), []).append(i)
-    reqs = [dict(i=n, vals=json.loads(k), agglists=[cases[i]["aggs"] for i in idxs]) for n, (k, idxs) in enumerate(groups.items())]
+    # every second input is aggregated through a mark ($m.x after as(m)) instead of the current element: the
+    # specification's judgement is the same, the engine resolves the field through another path
+    def via_mark(aggs):
+        out = []
+        for a in aggs:
+            a = dict(a)
+            if a.get("field") == "x":
+                a["field"] = "$m.x"
+            out.append(a)
+        return out
+    reqs = []
+    for n, (k, idxs) in enumerate(groups.items()):
+        r = dict(i=n, vals=json.loads(k), agglists=[cases[i]["aggs"] for i in idxs])
+        if n % 2 == 1:
+            r["pre"] = [dict(op="as", name="m")]
+            r["agglists"] = [via_mark(a) for a in r["agglists"]]
+        reqs.append(r)
     inp = ctx.write_ndjson("agg_in.ndjson", reqs)
     outp = os.path.join(ctx.scratch, "agg_out.ndjson")
     ctx.harness(["agg", "-j", "10", "-timeout", "60s"], input_path=inp, output_path=outp, timeout=2400)
@@ -51,7 +67,7 @@ def run(ctx):
         else:
             redo += idxs   # the worker died somewhere in this group: run its cases one by one
     if redo:
-        inp2 = ctx.write_ndjson("agg_in2.ndjson", [dict(i=i, vals=cases[i]["vals"], agglists=[cases[i]["aggs"]]) for i in redo])
+        inp2 = ctx.write_ndjson("agg_in2.ndjson", [dict(i=i, vals=cases[i]["vals"], agglists=[cases[i]["aggs"]]) for i in redo])  # plain form
         outp2 = os.path.join(ctx.scratch, "agg_out2.ndjson")
         ctx.harness(["agg", "-j", "10", "-timeout", "30s"], input_path=inp2, output_path=outp2, timeout=2400)
         for o in ctx.read_ndjson(outp2):
